@@ -10,7 +10,6 @@ translation fails closed.
 Selection rules (every rule must leave exactly one candidate, else Unsupported):
   a candidate is a PRIVATE callee (leading underscore, not dunder) defined in the same file
   (functions) or on the class / its bases, wherever those are defined (methods), whose body raises;
-    univariate        check_series(Z, ..)        : function called with the sole argument Z
     eval strategy     evaluate(.., strategy, ..) : function called with the sole argument `strategy`
     reduce strategy   make_reduction(..)         : function called with the sole argument `strategy`
     scitype           make_reduction(..)         : function called with the sole argument `scitype`
@@ -263,41 +262,65 @@ def is_flag_set(s, attr):
 
 
 class Roles:
+    """label -> where the helper is in this tree.  Every role is resolved on its own: `name`, `src`,
+    `cls` hold the resolved ones, `errors` why the others are not (asking for one of those raises)."""
+
     def __init__(self, repo, mods=None):
         t = self.tree = Tree(repo, mods)
-        self.src, self.name, self.cls = {}, {}, {}
+        self.src, self.name, self.cls, self.errors = {}, {}, {}, {}
+        defs = {}
 
-        def put(label, src, name, cls=None):
+        def put(label, f):
+            try:
+                src, name, cls = f()
+            except (Unsupported, OSError, SyntaxError, KeyError) as e:
+                self.errors[label] = str(e)
+                return
             self.src[label], self.name[label], self.cls[label] = src, name, cls
 
-        put("_check_is_univariate", SERIES,
-            _fun_role(t, "_check_is_univariate", SERIES, "check_series", 0))
-        put("eval._check_strategy", EVAL,
-            _fun_role(t, "eval._check_strategy", EVAL, "evaluate", "strategy"))
-        put("reduce._check_strategy", REDUCE,
-            _fun_role(t, "reduce._check_strategy", REDUCE, "make_reduction", "strategy"))
-        put("_check_scitype", REDUCE,
-            _fun_role(t, "_check_scitype", REDUCE, "make_reduction", "scitype"))
-        put("_infer_scitype", REDUCE,
-            _fun_role(t, "_infer_scitype", REDUCE, "make_reduction", "estimator"))
-        n, (f, c, fd) = _method_role(t, "_check_forecasters", ENSEMBLE, "EnsembleForecaster", "fit")
-        put("_check_forecasters", f, n, c)
-        n2, (f2, c2, sd) = _method_role(t, "_check_steps", PIPELINE, "TransformedTargetForecaster",
-                                       "fit")
-        put("_check_steps", f2, n2, c2)
-        a = _self_calls(t, ENSEMBLE, "EnsembleForecaster", fd, 1)
-        b = _self_calls(t, PIPELINE, "TransformedTargetForecaster", sd, 1)
-        both = {k: v for k, v in a.items() if k in b and b[k][:2] == v[:2]}
-        n3 = _one("_check_names", both)
-        put("_check_names", both[n3][0], n3, both[n3][1])
+        put("eval._check_strategy", lambda: (
+            EVAL, _fun_role(t, "eval._check_strategy", EVAL, "evaluate", "strategy"), None))
+        put("reduce._check_strategy", lambda: (
+            REDUCE, _fun_role(t, "reduce._check_strategy", REDUCE, "make_reduction", "strategy"),
+            None))
+        put("_check_scitype", lambda: (
+            REDUCE, _fun_role(t, "_check_scitype", REDUCE, "make_reduction", "scitype"), None))
+        put("_infer_scitype", lambda: (
+            REDUCE, _fun_role(t, "_infer_scitype", REDUCE, "make_reduction", "estimator"), None))
+
+        def method(label, src, cls):
+            def f():
+                n, (fsrc, c, d) = _method_role(t, label, src, cls, "fit")
+                defs[label] = d
+                return fsrc, n, c
+            return f
+        put("_check_forecasters", method("_check_forecasters", ENSEMBLE, "EnsembleForecaster"))
+        put("_check_steps", method("_check_steps", PIPELINE, "TransformedTargetForecaster"))
+
+        def names():
+            if "_check_forecasters" not in defs or "_check_steps" not in defs:
+                raise Unsupported("role _check_names: its callers are not resolved")
+            a = _self_calls(t, ENSEMBLE, "EnsembleForecaster", defs["_check_forecasters"], 1)
+            b = _self_calls(t, PIPELINE, "TransformedTargetForecaster", defs["_check_steps"], 1)
+            both = {k: v for k, v in a.items() if k in b and b[k][:2] == v[:2]}
+            n = _one("_check_names", both)
+            return both[n][0], n, both[n][1]
+        put("_check_names", names)
         if len({(self.src[k], self.cls[k], self.name[k]) for k in self.name}) != len(self.name):
             raise Unsupported("roles not distinct")
 
+    def need(self, label):
+        if label not in self.name:
+            raise Unsupported(self.errors.get(label, "unknown role " + label))
+        return self.name[label]
+
     def path(self, label):
         """`Class.method` / `function` of the helper in this tree."""
+        self.need(label)
         return (self.cls[label] + "." if self.cls[label] else "") + self.name[label]
 
     def params(self, label):
+        self.need(label)
         fn = self.tree.function(self.src[label], self.name[label]) if self.cls[label] is None \
             else self.tree.method_def(self.src[label], self.cls[label], self.name[label])[2]
         a = fn.args
@@ -311,3 +334,5 @@ if __name__ == "__main__":
     r = Roles(sys.argv[1] if len(sys.argv) > 1 else "/repo")
     for k in r.name:
         print(k, "->", r.src[k], r.path(k), r.params(k))
+    for k, e in r.errors.items():
+        print(k, "UNRESOLVED:", e)
